@@ -375,6 +375,8 @@ pub fn check_wire(w: &WorldInner, a: &Analysis, run: &RunResult, tcfg: &TraceCfg
     for (round, rt) in run.rounds.iter().zip(&a.rounds) {
         let slots = crate::truth::dispatched_slots(round);
         if slots.len() != rt.groups.len() {
+            // (C01's slots_equal_dispatches clause judges this; here the join cannot be made)
+            o.count("rounds_not_joined_slots_differ_from_dispatches", 1);
             continue;
         }
         for (&slot, g) in slots.iter().zip(&rt.groups) {
@@ -401,6 +403,17 @@ pub fn check_wire(w: &WorldInner, a: &Analysis, run: &RunResult, tcfg: &TraceCfg
                 }
                 if usize::from(ip.payload_len) != ip.payload.len() {
                     bad.push(("length", format!("payload length {} != {}", ip.payload_len, ip.payload.len())));
+                }
+                let want_next = match tcfg.protocol {
+                    Protocol::Icmp => PROTO_ICMP6,
+                    Protocol::Udp => PROTO_UDP,
+                    Protocol::Tcp => PROTO_TCP,
+                };
+                if ip.next != want_next {
+                    bad.push(("protocol", format!("next header {} != {want_next}", ip.next)));
+                }
+                if ip.src != w.cfg.host_v6 {
+                    bad.push(("source", format!("src {} != source address {host}", ip.src)));
                 }
                 transport = ip.payload;
             } else {
